@@ -11,7 +11,7 @@ boxes (see expr.py) and offers them to rule objects.
 import sys
 from collections import deque
 from body import BodyInfo
-from expr import (mk_discr, is_pop_call, show, box_part, table_of, mentions_site, mentions, is_const, const, MAX, depth, mk_deref,
+from expr import (mk_agg, mk_discr, is_pop_call, show, box_part, table_of, mentions_site, mentions, is_const, const, MAX, depth, mk_deref,
                   mk_field, mk_ref)
 
 ALL = frozenset("ZOMU")       # Zero, One, Many(2..MAX-1), Uninit(MAX)
@@ -929,6 +929,9 @@ class Engine:
     # ----- call -----------------------------------------------------------
     def do_call(self, b, t, st, val):
         callee = t["callee"]
+        r0 = self.known_slice_next(b, t, st, val)
+        if r0 is not None:
+            return r0
         args = [self.bi.operand(a, val) for a in t["args"]]
         for r in self.rules:
             h = getattr(r, "on_site_reexec", None)
@@ -980,6 +983,34 @@ class Engine:
                 ust = st.replace(flags=st.flags | {("unwinding", b)})
                 out.append((t["unwind"], ust))
         return out
+
+    def known_slice_next(self, b, t, st, val):
+        """`next` on a slice iterator that walks a known constant array (`for &k in &KINDS`): hand out the first element
+        and leave the rest behind, as for a literal array iterated by value."""
+        l = t.get("recv_local")
+        if l is None or t.get("target") is None or t["dst"]["p"]:
+            return None
+        cur = self.bi.local_value(l, val)
+        n = 0
+        while cur[0] == "call" and len(cur[3]) == 1 and cur[2] in ("core::iter::IntoIterator::into_iter", "core::slice::<impl [T]>::iter") and n < 4:
+            cur = cur[3][0]
+            n += 1
+        if not (cur[0] == "ref" and cur[1][0] == "agg" and cur[1][1] == "array"):
+            return None
+        a = cur[1]
+        if a[5]:
+            res = mk_agg("adt", "core::option::Option", "Some", 1, [("0", mk_ref(a[5][0][1]))])
+            rest = mk_ref(mk_agg("array", a[2], a[3], a[4], [(str(i), e) for i, (_n, e) in enumerate(a[5][1:])]))
+        else:
+            res = mk_agg("adt", "core::option::Option", "None", 0, [])
+            rest = cur
+        v = dict(st.val)
+        v[l] = rest
+        if t["dst"]["l"] in self.bi.dyn:
+            v[t["dst"]["l"]] = res
+        else:
+            return None
+        return [(t["target"], st.replace(val=fz(v)))]
 
     def call_events(self, b, t, callee, args, res, st):
         """Map a call terminator to abstract events. Returns (events, diverges)."""
